@@ -35,6 +35,7 @@
 #include "awkward/builder/ArrayBuilderOptions.h"
 #include "awkward/layoutbuilder/LayoutBuilder.h"
 #include "awkward/io/json.h"
+#include "awkward/io/uproot.h"
 #include "awkward/forth/ForthMachine.h"
 #include "awkward/forth/ForthInputBuffer.h"
 #include "awkward/forth/ForthOutputBuffer.h"
@@ -1153,6 +1154,13 @@ static std::string handle(const Sx& cs) {
       throw std::invalid_argument("specify 'cpu' or 'cuda'");
     }
     throw std::logic_error("unknown partition method " + m);
+  }
+  if (op == "uproot_issue_90") {   // xFORMJSON L(np) IX(i32)
+    FormPtr f = Form::fromjson(unhex(cs[2]));
+    ContentPtr data = pb(cs[3]);
+    const NumpyArray* raw = dynamic_cast<const NumpyArray*>(data.get());
+    if (!raw) throw std::invalid_argument("uproot_issue_90: data must be a NumpyArray");
+    return pd(uproot_issue_90(*f, *raw, rd_ix<int32_t>(cs[4])));
   }
   if (op == "slice_tostring") return hexs(rd_slice(cs[2]).tostring());
   if (op == "generate_and_check") {  // (id generate_and_check GEN)
